@@ -249,7 +249,7 @@ pub(super) fn anchor_split(
         let mut new_name = old_name;
         if let Some(new) = &mut new_name {
             if used_new_names.contains(new) {
-                *new = ctx.col_name.gen();
+                *new = ctx.gen_column_name();
                 ctx.column_names.insert(*old_cid, new.clone());
             }
 
